@@ -118,10 +118,26 @@ fn triple_case<P: G>(cfg: Cfg, seeded: bool, tier: Tier) -> Box<dyn Case> {
         let comp_wit = Wit::default_for(&comp_cfg);
         let comp = build_cached::<P>(&comp_cfg, &comp_wit).expect("valid");
         let comp_proof = lib_prove(&comp, &CTX_A, &mut HRng::chacha(23)).expect("honest");
+        // in-batch contexts presuppose that the two unaltered triples verify together in either order (C03's business)
+        let batch_baseline_ok = [true, false].iter().all(|first| {
+            let (sts, proofs) = if *first {
+                (vec![built.statement.clone(), comp.statement.clone()], vec![P::proof_clone(&proof), P::proof_clone(&comp_proof)])
+            } else {
+                (vec![comp.statement.clone(), built.statement.clone()], vec![P::proof_clone(&comp_proof), P::proof_clone(&proof)])
+            };
+            let mut ts = vec![ctx.transcript(), ctx.transcript()];
+            verify_observed(&sts, &proofs, &mut ts, VerifyAction::VerifyOnly).is_ok()
+        });
+        if !batch_baseline_ok {
+            *res.outcome_counter("in-batch-baseline-not-accepted(skipped)") += 1;
+        }
         let proof_bytes_or_obj = |st: &RangeStatement<P>, sub: &str, res: &mut CaseResult, expect_ok: bool| {
             res.transitions += 1;
             // the altered triple inside a batch, first and last (as the largest member when m > 1)
             for altered_first in [true, false] {
+                if !batch_baseline_ok {
+                    break;
+                }
                 let (sts, proofs) = if altered_first {
                     (vec![st.clone(), comp.statement.clone()], vec![P::proof_clone(&proof), P::proof_clone(&comp_proof)])
                 } else {
@@ -255,6 +271,9 @@ fn triple_case<P: G>(cfg: Cfg, seeded: bool, tier: Tier) -> Box<dyn Case> {
         // ---- transcript initial state of one member of a batch (first and last position)
         for ctx2 in [contexts()[1], contexts()[3]] {
             for altered_first in [true, false] {
+                if !batch_baseline_ok {
+                    break;
+                }
                 res.transitions += 1;
                 let (sts, proofs, mut ts) = if altered_first {
                     (vec![built.statement.clone(), comp.statement.clone()], vec![P::proof_clone(&proof), P::proof_clone(&comp_proof)], vec![ctx2.transcript(), ctx.transcript()])
@@ -322,6 +341,74 @@ fn pair_case<P: G>(cfg: Cfg) -> Box<dyn Case> {
     })
 }
 
+/// Alterations of one member of a batch beyond the chunk limit (members 255, 256, 257 and the last)
+fn long_batch_case<P: G>() -> Box<dyn Case> {
+    case(format!("{}/long-batch-alterations", P::NAME), move |_v| {
+        fg::clear_intern();
+        let mut res = CaseResult::new("explored");
+        let cfg = Cfg::new(2, 1, 1, 1);
+        let len = 258usize;
+        let mut sts = Vec::new();
+        let mut proofs = Vec::new();
+        let mut ctxs = Vec::new();
+        let mut builts = Vec::new();
+        for pos in 0..len {
+            let mut wit = Wit::default_for(&cfg);
+            wit.values[0] = (pos % 4) as u64;
+            wit.blindings[0][0] = blinding(4000 + pos, 0);
+            let built = build_cached::<P>(&cfg, &wit).unwrap();
+            let ctx = contexts()[pos % 6];
+            proofs.push(lib_prove(&built, &ctx, &mut HRng::chacha(pos as u64)).unwrap());
+            sts.push(built.statement.clone());
+            ctxs.push(ctx);
+            builts.push(built);
+        }
+        let run = |sts: &[RangeStatement<P>], proofs: &[tari_bulletproofs_plus::range_proof::RangeProof<P>], ctxs: &[Ctx]| {
+            let mut ts: Vec<merlin::Transcript> = ctxs.iter().map(|c| c.transcript()).collect();
+            verify_observed(sts, proofs, &mut ts, VerifyAction::VerifyOnly)
+        };
+        let base = run(&sts, &proofs, &ctxs);
+        res.executions += 1;
+        if !base.is_ok() {
+            res.outcome = "base-batch-not-accepted(skipped)".into();
+            return res;
+        }
+        for pos in [0usize, 255, 256, 257] {
+            // proof scalar
+            let mut rp = ref_proof_of(&proofs[pos]).unwrap();
+            rp.r1 += curve25519_dalek::scalar::Scalar::ONE;
+            let mut p2: Vec<_> = proofs.iter().map(|p| P::proof_clone(p)).collect();
+            p2[pos] = P::from_bytes(&refbp::ref_encode(&rp)).unwrap();
+            // commitment
+            let mut s2 = sts.clone();
+            let mut cs = builts[pos].commitments.clone();
+            cs[0] = cs[0].g_add(builts[pos].params.h_base());
+            s2[pos] = restate(&builts[pos], cs, vec![None], None).unwrap();
+            // promise
+            let mut s3 = sts.clone();
+            s3[pos] = restate(&builts[pos], builts[pos].commitments.clone(), vec![Some(1)], None).unwrap();
+            // transcript context
+            let mut c2 = ctxs.clone();
+            c2[pos] = contexts()[(pos + 1) % 6];
+            for (name, obs) in [
+                ("proof scalar r1", run(&sts, &p2, &ctxs)),
+                ("commitment", run(&s2, &proofs, &ctxs)),
+                ("promise", run(&s3, &proofs, &ctxs)),
+                ("transcript context", run(&sts, &proofs, &c2)),
+            ] {
+                res.executions += 1;
+                res.validated += 1;
+                res.transitions += 1;
+                *res.outcome_counter(&format!("long-batch:{}", obs.class())) += 1;
+                if !obs.is_err() {
+                    res.violate(format!("member{}/{}", pos, name), format!("{}-member batch accepted although the {} of member {} was altered: {}", len, name, pos, obs.describe()));
+                }
+            }
+        }
+        res
+    })
+}
+
 pub fn run(rep: &mut Report) {
     rep.rule = "configuration lattice x accepted triple (and a seeded one for m=1) x every component position x replacement alphabet: \
                 proof scalars {+1, 0, negated, another scalar}, proof points {identity, undecodable, +H, another point, L<->R}, rounds \
@@ -342,6 +429,8 @@ pub fn run(rep: &mut Report) {
             cases.push(pair_case::<F>(cfg));
         }
     }
+    cases.push(long_batch_case::<F>());
+    cases.push(long_batch_case::<RistrettoPoint>());
     rep.explore("C05", cases);
     rep.expect_outcome("explored");
     rep.expect_sub_outcome("verify:Err:VerificationFailed");
